@@ -23,7 +23,7 @@ func (vc *FnVC) call(st *State, c *ssa.CallCommon, instr *ssa.Call, rt types.Typ
 	if c.IsInvoke() {
 		recv := vc.val(st, c.Value)
 		vc.safety(st, "nil", vc.srcTextCall(c, instr)+".recv", smtNot(sx("=", sx("i.tag", recv.S), "0")))
-		key := "iface:" + shortTypeName(c.Value.Type()) + "." + c.Method.Name()
+		key := ifaceKey(c.Value.Type(), c.Method.Name())
 		if u := vc.G.C.Units[key]; u != nil {
 			sig := c.Method.Type().(*types.Signature)
 			names := []string{"recv"}
@@ -110,6 +110,14 @@ func (vc *FnVC) call(st *State, c *ssa.CallCommon, instr *ssa.Call, rt types.Typ
 }
 
 var noResult = &Val{}
+
+// ifaceKey is the contract key of an interface method: <pkgpath>::iface:<Type>.<Method>.
+func ifaceKey(t types.Type, method string) string {
+	if n, ok := types.Unalias(t).(*types.Named); ok && n.Obj().Pkg() != nil {
+		return n.Obj().Pkg().Path() + "::iface:" + n.Obj().Name() + "." + method
+	}
+	return "iface:" + t.String() + "." + method
+}
 
 func (vc *FnVC) knownNonNil(v ssa.Value) bool {
 	switch v.(type) {
@@ -211,6 +219,13 @@ func (vc *FnVC) applyContract(st *State, u *Unit, callee *ssa.Function, pkg *typ
 	old := st.clone()
 	// 2. effects
 	if u.HasMod || u.Trusted || u.Pure {
+		if u.ModInferred && callee != nil {
+			ws, all := vc.G.fnWrites(callee)
+			if all {
+				vc.note("call to %s: unknown effects, whole heap havocked", short)
+			}
+			vc.havocSet(st, ws, all)
+		}
 		for _, it := range u.Modifies {
 			k, ref, err := vc.modItem(env, it)
 			if err != nil {
@@ -223,7 +238,7 @@ func (vc *FnVC) applyContract(st *State, u *Unit, callee *ssa.Function, pkg *typ
 				for _, kk := range ks {
 					if vc.keys[kk] == nil {
 						if ki := vc.G.keyInfo(kk); ki != nil {
-							vc.key(ki.Name, ki.Sort, ki.Kind)
+							vc.keyFrom(ki)
 						}
 					}
 				}
